@@ -300,6 +300,14 @@ def make_numpy(interp):
     I = _I()
 
     def zeros(shape, dtype=None):
+        # the proofs read float arrays as reals, which is the stated idealisation of IEEE double precision: a buffer of lower
+        # precision (float32 / float16 / an integer type receiving quotients) silently rounds what is stored into it
+        if dtype is not None and not (dtype is float or str(dtype) in ("float", "float64", "d", "f8", "<f8", "double", "<class 'float'>")
+                                      or getattr(dtype, "name", None) in ("float", "float64")):
+            if str(getattr(dtype, "name", dtype)) in ("int8", "int", "int64", "bool", "int32", "<class 'int'>", "i"):
+                pass        # integer tables (normals, counters) are exact
+            else:
+                T.oblige_safety("numpy:double-precision-buffer(dtype=%s)" % (getattr(dtype, "name", dtype),), False)
         if isinstance(shape, (list, tuple, SymArray)):
             sh = _as_list(shape)
         else:
